@@ -133,7 +133,13 @@ impl Prop for C18 {
             // 'hfd-mixed' population: hold-for-duration on a virtual key that other keys press,
             // release, tap and toggle meanwhile; operations 15 / 40 / 160 ms apart with D = 100, so
             // every outcome is far from a boundary
-            case.cfg = "(defsrc a p r t g)\n(defvirtualkeys vk1 1)\n(deflayer l0 (hold-for-duration 100 vk1) (on-press press-vkey vk1) (on-press release-vkey vk1) (on-press tap-vkey vk1) (on-press toggle-vkey vk1))\n".to_string();
+            // each explicit operation is bound to the press or to the release of its key
+            let forms: Vec<&str> = (0..4).map(|_| if r.chance(500) { "on-press" } else { "on-release" }).collect();
+            case.cfg = format!(
+                "(defsrc a p r t g)\n(defvirtualkeys vk1 1)\n(deflayer l0 (hold-for-duration 100 vk1) ({} press-vkey vk1) ({} release-vkey vk1) ({} tap-vkey vk1) ({} toggle-vkey vk1))\n",
+                forms[0], forms[1], forms[2], forms[3]
+            );
+            case.set("forms", forms.join(","));
             let mut ops = vec![Op::Gap(2)];
             for _ in 0..r.range(2, 7) {
                 let k = oscode_of(*r.pick(&["a", "a", "a", "p", "r", "r", "t", "g"]));
@@ -306,6 +312,7 @@ impl Prop for C18 {
             // release; release: up; tap: up afterwards; toggle: the other state; hold-for-duration:
             // down until 100 ms after its most recent activation (an explicit press / release / tap /
             // toggle in between takes over: the pending timed release is void)
+            let forms: Vec<&str> = case.param("forms").unwrap_or("on-press,on-press,on-press,on-press").split(',').collect();
             let mut tm = 0u64;
             let mut down = false;
             let mut deadline: Option<u64> = None;
@@ -329,8 +336,19 @@ impl Prop for C18 {
                         }
                         tm = end;
                     }
-                    Op::Press(c) => {
+                    Op::Press(c) | Op::Release(c) => {
                         let name = ["a", "p", "r", "t", "g"].iter().find(|n| oscode_of(n) == *c).copied().unwrap_or("?");
+                        // the operation happens at the press or at the release of its key
+                        let on_release = match name {
+                            "p" => forms.first() == Some(&"on-release"),
+                            "r" => forms.get(1) == Some(&"on-release"),
+                            "t" => forms.get(2) == Some(&"on-release"),
+                            "g" => forms.get(3) == Some(&"on-release"),
+                            _ => false,
+                        };
+                        if on_release != matches!(op, Op::Release(_)) {
+                            continue;
+                        }
                         let at = tm + 1;
                         match name {
                             "a" => {
